@@ -18,6 +18,9 @@ PROP = dict(
         "Comdex.C18.interest_mono_time_counterexample", "Comdex.C18.interest_mono_rate_counterexample",
         "Comdex.C18.tracker_never_negative", "Comdex.C18.whole_units_paid_fraction_carried",
         "Comdex.C18.more_frequent_accrual_not_more",
+        # state level: the vault bookkeeping around CalculationOfRewards (time base, BlockHeight == 0 flag, tracker, stamps)
+        "Comdex.C18.vault_calc_books_interest", "Comdex.C18.vault_next_interval_starts_here",
+        "Comdex.C18.accrual_subadditive", "Comdex.C18.more_frequent_triggering_not_more", "Comdex.C18.fee_toggle_restarts_clock",
     ],
     harness_tests=["TestC18"],
     trusted_base=[KERNEL_TB, HARNESS_TB, DEC_TB,
@@ -28,6 +31,12 @@ PROP = dict(
                   "subtraction and multiplication, FormatFloat('f',18), NewDecFromStr, tracker carry): the harness prints the IEEE-754 bit "
                   "pattern math.Pow returned for the same arguments, the model decodes it exactly and must reproduce the real result of "
                   "CalculationOfRewards / CalculateVaultInterest / CalculateLockerRewards bit for bit",
+                  "Model/VaultAccrual.lean is hand-written from x/rewards/keeper/rewards.go:639-698 (CalculateVaultInterest), "
+                  "x/vault/keeper/msg_server.go:1432-1453 (MsgVaultInterestCalc) and x/asset/keeper/pairs_vault.go:240-366 (WasmUpdatePairsVault, "
+                  "VaultIterateRewards): state = pair (fee, stamp), vault (principal, interest, BlockHeight flag, BlockTime), tracker; tied by "
+                  "delivering the real MsgVaultInterestCalc through the message router, calling CalculateVaultInterest and WasmUpdatePairsVault "
+                  "on real records and comparing every record field after every call; the single calculation over the combined interval is run "
+                  "on a discarded branch of the same real state for the monitor accrual_subadditive",
                   "Go's math.Pow itself is NOT modelled: the family-(b) theorems assume the explicit hypotheses FloatOps (pow >= 1, "
                   "pow x 0 = 1, quasi-multiplicative within 2^-40) and PowMonoTime / PowMonoRate; the harness TESTS them on 3*10^6 (quick) / "
                   "10^8 (thorough) points per hypothesis (rates in [0,10], 0..50 years) - a test, not a proof. PowMonoTime/PowMonoRate "
@@ -38,7 +47,8 @@ PROP = dict(
                  "principal is an integer (sdk.Int printed with String(), as every caller does), 0 <= principal; global indices >= 1.0 "
                  "(they start at 1.0 and only grow) for the two-interval law; rates >= 0; elapsed time >= 0",
                  "family (b): principal within int64 (the code panics otherwise - modelled), results finite"],
-    rule="each case is one group of related calls on the real code (same inputs varied in elapsed time / principal / rate, two consecutive "
+    rule="(vault flows: one case = one sequence of fee updates / interest calculations on one real vault) "
+         "each case is one group of related calls on the real code (same inputs varied in elapsed time / principal / rate, two consecutive "
          "intervals against the combined interval, same parameters at several utilisations incl. 0, the kink, its neighbours and 1) or one "
          "accrual sequence on a real vault / locker / lend position; distinct = distinct trace text, non-trivial = at least one call returned ok",
 )
@@ -55,7 +65,10 @@ META = dict(
          "intervals never exceed the combined interval by more than 4e-18 per unit of principal (1e-18 for the stable rate). "
          "(b) x/rewards CalculationOfRewards (vault stability fee, locker savings) - PARTIAL: kernel-checked relative to explicit, tested "
          "hypotheses about Go's math.Pow: >= 0, 0 at zero time, monotone in principal, two-interval law with explicit error term, tracker "
-         "never negative and pays exactly the whole units; monotonicity in time and rate is proved only under PowMonoTime/PowMonoRate, "
+         "never negative and pays exactly the whole units; at the level of the vault records (which interval is accrued: vault stamp or, "
+         "when the vault's BlockHeight flag is 0, the pair's stamp; tracker; whole units; stamps) two consecutive calculations never book "
+         "more than a single calculation over the combined interval beyond the explicit float slack, from any start stamp, and the flag is "
+         "consumed by every calculation (accrual_subadditive, more_frequent_triggering_not_more); monotonicity in time and rate is proved only under PowMonoTime/PowMonoRate, "
          "which the harness shows to be false of math.Pow in the last bit - the real function then returns LESS interest for one more "
          "second / a higher rate (kernel-checked counterexamples on the observed values; monitors mono_time_pow / mono_rate_pow).",
     note="Trusted: Lean kernel; Base/Dec.lean (differentially tested); the harness generators. Family (b) is PARTIAL: math.Pow is an "
